@@ -1383,6 +1383,7 @@ func main() {
 	orcTransport := vh.NewOracle("bulk.transport", "codec: the slice Marshal returned for a request still unmarshals to it after later Marshals; real gRPC: rounds of 4-8 concurrent bulks of 100 KiB - 2 MiB from the real SeqDBClient (VTProto codec registered as in cmd/seq-db) to a fake StoreApiServer that compares every received docs/metas block byte for byte with what the client was handed; non-trivial = several requests")
 	orcBig := vh.NewOracle("bulk.bigbody", "one plain body of about 103 MiB (fixed-size action/document pairs generated on the fly) through the proxy's HTTP router (newIngestorHandler) and the real BulkHandler/Ingestor into a counting client: 200, items = pairs, one store call, the payload holds every document, first and last byte-identical")
 	orcBinary := vh.NewOracle("bulk.binary", "thorough: the real seq-db binary in proxy mode (built from the tree under test) in front of a fake gRPC store that decodes every payload; 9 rounds of 6 concurrent /_bulk posts of 100-800 KiB: every post 200, every posted document arrives exactly once byte for byte, nothing else arrives")
+	orcSize := vh.NewOracle("bulk.sizelimit", "the real proxyapi.NewIngestor with MaxDocumentSize in {512, 2048, 8192, 16384, 16385, 128 KiB} and the HTTP handler it built (router + BulkHandler), in front of a recording gRPC store: a bulk [small, document of n bytes, small] with n in {limit-2, limit-1, limit, limit+1, 2*limit, 16 KiB-1, 16 KiB, 16 KiB+1, 100}: n+1 <= max(limit,16) => all three stored verbatim and counted, else the middle one skipped, the neighbours stored, two items; thorough: the real binary with --max-document-size=2048; non-trivial = over-size document")
 	orcSingle := vh.NewOracle("bulk.single", "single-binary mode (child process): real storeapi.NewStore + in-memory StoreApiClient + SeqDBClient + bulk.Ingestor + BulkHandler; the store's index workers are parked at c07.aidx.start while a burst of one-document bulks (up to workers + queue length) is accepted, then released, several rounds; every accepted document must be found by its own token exactly once and fetched with its own bytes, and the process must survive; non-trivial = at least one bulk accepted")
 	orcE2E := vh.NewOracle("bulk.e2e", "real HTTP POST /_bulk (plain or gzip) into tests/setup.TestingEnv (ingestor + store, child process), then search by a per-request tag with fetch: accepted => exactly the qualifying documents can be fetched, byte for byte, items = count, ID times by the rule; rejected => nothing can be fetched; non-trivial = at least one document stored")
 
@@ -1459,6 +1460,21 @@ func main() {
 					binaryBulksCase(cc, rr, sd, orcBinary, rep)
 				}
 			}
+			if f := strings.Fields(l); len(f) == 3 && f[0] == "sizecase" {
+				var lim, n int
+				fmt.Sscanf(f[1], "%d", &lim)
+				fmt.Sscanf(f[2], "%d", &n)
+				if lim > 0 && n > 0 && n < 1<<24 {
+					sizeCase(lim, n, orcSize, rep)
+				}
+			}
+			if f := strings.Fields(l); len(f) == 2 && f[0] == "binsize" {
+				var lim int
+				fmt.Sscanf(f[1], "%d", &lim)
+				if lim > 0 {
+					binarySizeCase(lim, orcSize, rep)
+				}
+			}
 			if p, ok := parseSingle(l); ok {
 				runSingle(p, orcSingle, rep)
 			}
@@ -1484,6 +1500,7 @@ func main() {
 		rep.AddOracle(orcTransport)
 		rep.AddOracle(orcBig)
 		rep.AddOracle(orcBinary)
+		rep.AddOracle(orcSize)
 		rep.Write(o.Out)
 		return
 	}
@@ -1892,6 +1909,12 @@ func main() {
 	if want("bulk.bigbody") {
 		bigBodyCase(101500, 1024, orcBig, rep)
 	}
+	if want("bulk.sizelimit") {
+		runSizeOracle(orcSize, rep)
+		if o.Thorough() {
+			binarySizeCase(2048, orcSize, rep)
+		}
+	}
 	if want("bulk.binary") && o.Thorough() {
 		binaryBulksCase(6, 9, o.Seed, orcBinary, rep)
 	}
@@ -1919,6 +1942,7 @@ func main() {
 	rep.AddOracle(orcTransport)
 	rep.AddOracle(orcBig)
 	rep.AddOracle(orcBinary)
+	rep.AddOracle(orcSize)
 	rep.AddOracle(orcIndex)
 	rep.AddOracle(orcConfig)
 	rep.AddOracle(orcLines)
